@@ -136,20 +136,24 @@ GRID = st.integers(-8, 36).map(lambda x: x / 4)
 
 
 def dates(floaty):
-    if floaty:
+    if floaty == 1:
         return st.floats(-1e6, 1e6, allow_nan=False, allow_infinity=False)
+    if floaty == 2:       # one-decimal dates: not representable, every addition rounds
+        return st.integers(-20, 90).map(lambda x: x / 10)
     return GRID
 
 
 def delays(floaty):
-    if floaty:
+    if floaty == 1:
         return st.floats(0, 1e5, allow_nan=False, allow_infinity=False)
+    if floaty == 2:
+        return st.integers(0, 30).map(lambda x: x / 10)
     return st.sampled_from(DELAYS)
 
 
 @st.composite
 def programs(draw, tier):
-    floaty = draw(st.integers(0, 9)) == 0
+    floaty = {0: 1, 1: 2, 2: 2}.get(draw(st.integers(0, 9)), 0)
     big = tier == 'thorough'
     counter = [0]
     D, T = delays(floaty), dates(floaty)
@@ -187,6 +191,8 @@ def programs(draw, tier):
                         ch['after'] = draw(D)
                     elif m == 2:
                         ch['at_off'] = draw(D)      # resolved to an absolute date below
+                    elif m == 3 and floaty:
+                        ch['at_abs'] = draw(T)      # absolute date, kept if it is not in the past
                     blk['children'].append(ch)
                 out.append(blk)
         return out
@@ -211,6 +217,12 @@ def resolve(prog):
             else:
                 entry = now
                 for ch in s.get('children', ()):
+                    if 'at_abs' in ch:
+                        d = ch.pop('at_abs')
+                        if entry is not NEVER and d >= entry and entry not in (INF, -INF):
+                            ch['at'] = d
+                        else:
+                            ch['after'] = 0.5
                     if 'at_off' in ch:
                         off = ch.pop('at_off')
                         if entry is NEVER or entry == INF or entry == -INF:
